@@ -11,6 +11,8 @@ CLAIMS = {
          "not decided: whole-stream end-to-end claim, header field content equality, netpoll transport", "3 C01"),
  "C03": ("slice: absence of run-time panics (index, slice, nil, explicit panic, make size, division) for all inputs in the parsers of untrusted data under contract (see evidence for the list)",
          "not decided: well-formedness of everything emitted; functions not yet under contract", "3 C03"),
+ "C05": ("newlineToSpace yields a same-length copy without CR or LF and appendHeaderLine appends nothing or exactly one line whose only CR/LF bytes are its own terminator, for all byte strings; in the header serialisers (RequestHeader/ResponseHeader/Trailer.AppendBytes) every raw append of non-constant bytes is proved free of CR and LF and raw appenders may only fill standalone buffers, so every line break in the output is one the serialiser wrote itself",
+         "not decided: the request line (method, request URI) is application-controlled and outside the property's list - reported as exempt in the evidence; consts.StatusLine is an assumed contract; count of fields is by construction of the call-site discipline, not a counted postcondition", "3 C05"),
  "C07": ("normalizePath: for every dst/src (not sharing an array) the result starts with '/', contains no '//', '/./', '/../' and does not end in '/..' - unbounded proof by loop invariants; its helpers addLeadingSlash and decodeArgAppendNoPlus verified against append-style contracts",
          "not decided: equality with the decode-then-stack reference; CleanPath (not yet under contract); non-overlap of URI's internal buffers is assumed", "3 C07"),
 }
